@@ -846,6 +846,49 @@ theorem tryGetClosedLoop_P (pg : Polygon α) (L : Loop α) (hout : ∀ v ∈ pg.
     (hin : ∀ il ∈ pg.inner, ∀ v ∈ il.vertices, P v) (h : pg.tryGetClosedLoop = .ok L) : ∀ v ∈ L.vertices, P v := by
   unfold Polygon.tryGetClosedLoop at h
   exact closedLoopIter_P pg _ hin _ _ L (by simpa [Loop.open] using hout) h
+
+/-! ### no Steiner points without refinement -/
+open C01T
+
+/-- every corner of every ear of a trace is a vertex of the outline the trace starts from -/
+theorem earTrace_corners (P : V3 α → Prop) : ∀ (L : Loop α) (ts : List (V3 α × V3 α × V3 α)) (ss),
+    EarTrace L ts ss → (∀ v ∈ L.vertices, P v) → ∀ t ∈ ts, P t.1 ∧ P t.2.1 ∧ P t.2.2 := by
+  intro L ts ss h
+  induction h with
+  | done L _ => intro _ t ht; cases ht
+  | sanitize L L' ts ss hs _ ih =>
+    intro hL t ht
+    exact ih (fun v hv => hL v (sanitize_subset L L' hs v hv)) t ht
+  | ear L anchor v0 v1 v2 ts ss _ h0 h1 h2 _ _ ih =>
+    intro hL t ht
+    rcases List.mem_cons.mp ht with rfl | ht
+    · exact ⟨hL v0 (List.mem_of_getElem? h0), hL v1 (List.mem_of_getElem? h1), hL v2 (List.mem_of_getElem? h2)⟩
+    · exact ih (fun v hv => hL v (List.mem_of_mem_eraseIdx hv)) t ht
+
+/-- **the unrefined triangulation has no Steiner points**: every corner of every triangle `from_polygon` returns is a vertex of
+    the polygon's outer loop or of one of its holes (any number type) -/
+theorem fromPolygon_corners_are_vertices (poly : Polygon α) (t' : Mesh α) (h : fromPolygon poly = .ok t') :
+    ∀ tri ∈ t'.getTrilist, ∀ v, (v = tri.a ∨ v = tri.b ∨ v = tri.c) →
+      v ∈ poly.outer.vertices ∨ ∃ il ∈ poly.inner, v ∈ il.vertices := by
+  obtain ⟨L0, L, ts, ss, hL0, hclose, htr, hg⟩ := fromPolygon_trace poly t' h
+  let P : V3 α → Prop := fun v => v ∈ poly.outer.vertices ∨ ∃ il ∈ poly.inner, v ∈ il.vertices
+  have hP0 : ∀ v ∈ L0.vertices, P v :=
+    tryGetClosedLoop_P (P := P) poly L0 (fun v hv => Or.inl hv) (fun il hil v hv => Or.inr ⟨il, hil, hv⟩) hL0
+  have hPL : ∀ v ∈ L.vertices, P v := fun v hv => hP0 v (close_subset L0 L hclose v hv)
+  have hts := earTrace_corners P L ts ss htr hPL
+  intro tri htri v hv
+  unfold Mesh.getTrilist at htri
+  simp only [List.mem_map, Array.mem_toList_iff] at htri
+  obtain ⟨tp, htp, rfl⟩ := htri
+  have hmem : (tp.triangle.a, tp.triangle.b, tp.triangle.c) ∈ ts := by
+    rw [← hg]
+    simp only [geom, List.mem_map, Array.mem_toList_iff]
+    exact ⟨tp, htp, rfl⟩
+  obtain ⟨ha, hb, hc⟩ := hts _ hmem
+  rcases hv with rfl | rfl | rfl
+  · exact ha
+  · exact hb
+  · exact hc
 end generic
 
 /-! ## over ℝ: the plane `v · N = d` -/
